@@ -53,7 +53,8 @@ def gen_seq(rng):
     n = rng.choice([0, 1, 2, 3, 4, 5, rng.randint(0, 50)])
     if mode < 0.45:
         head = "".join(rng.choice("ACGT") for _ in range(rng.randint(0, 12)))
-        tail = "".join(rng.choice("AAAAAAACGTN") for _ in range(n))
+        # U (RNA) and IUPAC codes are "other bases" like C, G and T
+        tail = "".join(rng.choice(rng.choice(["AAAAAAACGTN", "AAAAAAACGTN", "AAAAAAAUUCG", "AAAAAAAAUuRYWt"])) for _ in range(n))
         return head + tail
     if mode < 0.6:
         # exactly at the 20% boundary: k non-A among 5k (+-1)
